@@ -3,7 +3,10 @@
 import os
 V = os.path.dirname(os.path.dirname(os.path.abspath(__file__)))
 SEP = "\x01"
-OPT = "\x00" * 12
+# number of option bytes each target takes from the END of the input (FuzzedDataProvider): exactly that many NUL bytes are
+# appended, so that the text part of a seed reaches the parser unpolluted (a longer tail of NULs made every seed a malformed input)
+NOPT = {"text_chars": 1, "text_numbers": 2, "text_blocks": 6, "tokenizers": 7, "keyval": 2, "attributes": 5, "apptools": 3, "paramlist_match": 0,
+        "filetools": 1, "datatable": 10, "distformat": 1, "interval_desc": 0, "numcalc": 2, "formula": 0}
 S = {
  "text_chars": ["hello world\x01o\x01X", "  \t padded \n\x01 \x01", "aaa\x01aa\x01a", ""],
  "text_numbers": ["-12.5e-3", "42", "+7", "1e5", "-", ".", "e5", "0x10", " 12 ", "1.2.3"],
@@ -19,17 +22,19 @@ S = {
                 "Simple(values=(1,2,3),probas=(0.2,0.3,0.5))", "Constant(value=1)", "Uniform(n=4,begin=0,end=2)", "Gaussian(n=3,mu=0,sigma=1)", "Exponential(n=4,lambda=2)",
                 "TruncExponential(n=4,lambda=2,tp=3)", "Beta(n=4,alpha=0.5,beta=2)", "Gamma(", "Simple(values=(1,2),probas=(1))"],
  "interval_desc": ["[0;1]", "]-inf;3.5[", "[1e-3;+inf[", "[;]", "]", "[1;0]", "[ 0; 1] "],
- "numcalc": ["1,2,5-8,10", "seq(from=0,to=1,step=0.1)", "seq(from=1,to=10,size=4)", "0.1,0.2", "5-1", "-", "1-"],
+ "numcalc": ["1,2,5-8,10", "seq(from=0,to=1,step=0.1)", "seq(from=1,to=10,size=4)", "0.1,0.2", "5-1", "-", "1-",
+             # boundary values in every numeric field: zero, negative, reversed
+             "seq(from=0,to=1,size=-3)", "seq(from=1,to=0,step=-0.5)", "seq(from=2,to=2,size=0)", "seq(from=-1,to=-2,size=1)", "3-1,-2", "0-0"],
  "formula": ["1+2*3", "(f+1)/2-exp(0.5)", "-f*log(2)", "((1))", "1++2", "exp(", ")(", "2*-3", ""],
 }
 DICT = ["(", ")", "=", ",", ";", "[", "]", "$(", ")", "*", "\\\\", "#", "\\\"", "e", "inf", "-inf", "+inf", "seq(", "Gamma(", "Beta(", "Invariant(", "Mixture(", "Simple(", "Constant(",
         "dist=", "dist1=", "n=", "alpha=", "beta=", "probas=", "values=", "from=", "to=", "step=", "size=", "param=", "//", "/*", "*/", "\\x01", "\\x09", "\\x0a", "exp(", "log(", "f", "+", "-", "/",
-        "1e", "e-", ".", "{", "}", ":=", "yes", "no", "true", "false"]
+        "1e", "e-", ".", "{", "}", ":=", "yes", "no", "true", "false", "=-", "=0", "=-1", "-0", "=1e-"]
 for t, seeds in S.items():
     d = os.path.join(V, "fuzz", "seeds", t)
     os.makedirs(d, exist_ok=True)
     for i, s in enumerate(seeds):
-        open(os.path.join(d, "%02d" % i), "wb").write(s.encode("latin-1") + OPT.encode())
+        open(os.path.join(d, "%02d" % i), "wb").write(s.encode("latin-1") + b"\x00" * NOPT[t])
 with open(os.path.join(V, "fuzz", "dict", "all.dict"), "w") as f:
     for w in DICT:
         f.write('"%s"\n' % w.replace('"', '\\"') if not w.startswith("\\") else '"%s"\n' % w)
